@@ -8,9 +8,10 @@ by every `exit…` handler, in the order the handlers put children and attribute
   order, literal texts as Python's `str(value)`, flattened reference names, symbol name / type name /
   prefixes / `start` / `value` / `fixed`, the equations of every class of the flat tree).
 * `encode`: `none` = generation raises — a node class without handler in a position a handler looks up
-  (`KeyError`), or a `start` / `value` that is not a plain literal (`AttributeError` on `.value`) unless the
-  tree builds attribute values from the expression's own element (`Cfg.exprAttrs`, proposed fix C25-1), or —
-  with proposed fix C25-2 (`Cfg.rejectElse`) — a when-equation with `elsewhen` branches.
+  (`KeyError`), or a when-equation with `elsewhen` branches (`NotImplementedError`, `Cfg.rejectElse`, commit
+  8d9d442), or — before commit 4e2bf7e, `Cfg.exprAttrs = false` — a `start` / `value` that is not a plain
+  literal (`AttributeError` on `.value`).  `Cfg.fixed` is the tree as it is now, `Cfg.asIs` the tree before the
+  two commits, in which findings C25-F1 and C25-F2 were recorded.
 * `decode`: a strict reader of exactly the elements `encode` produces.
 -/
 namespace PymocaVerif.XmlTree
@@ -56,7 +57,7 @@ structure Flat where
   classes : List Cls
   deriving Repr, BEq
 
-/-- Two points on which the tree may differ (proposed fixes C25-1, C25-2). -/
+/-- Two points on which the tree changed (fixes C25-1 = 4e2bf7e, C25-2 = 8d9d442). -/
 structure Cfg where
   exprAttrs : Bool    -- `start` / `value` are emitted as the expression's own element (any supported expression)
   rejectElse : Bool   -- a when-equation with `elsewhen` branches makes generation raise instead of losing them
